@@ -9,8 +9,9 @@ script), with one long-open reader handle keeping the WAL alive; second round: a
 one, with client operations placed between the two backups and in the gaps of the second, for both answers of the
 environment to "does the new index dump carry the same modification second as the previous backup's index?" (rsync's
 quick check has one-second granularity).
-Thorough tier additionally runs backup and client as real threads under the baton scheduler: the client script is
-pre-emptible at each of its visible file-system calls / SQL statements (pre-emption bound 2), the backup at its gaps.
+Both tiers additionally run backup and client as real threads under the baton scheduler: the client script is
+pre-emptible at each of its visible file-system calls / SQL statements (pre-emption bound 1 quick / 2 thorough), the backup at
+its gaps; one script stores a batch directly to a pack with the internal batch size lowered to 2.
 Oracle (only for backups that complete without BackupError; completed/failed counts are reported): the backup folder
 is opened as a Container: every object acknowledged before the backup started reads back exactly; every key of
 list_all_objects() reads back to bytes whose digest is the key; validate() is clean.
@@ -28,8 +29,16 @@ from ..sched import Harness, explore
 LEVEL = 'model_checking'
 
 L1, L2, P1, Z, N1, N2, N3 = b'loose-one-' * 3, b'loose-two', b'packed-plain-' * 2, b'compressed-' * 8, b'new-loose', b'new-direct-to-pack' * 2, b'third'
-CONTENT = {H(x): x for x in (L1, L2, P1, Z, N1, N2, N3)}
+CONTENT = {H(x): x for x in (L1, L2, P1, Z, N1, N2, N3, b'fourth-new-object' * 2)}
 NGAPS = 6
+
+N4 = b'fourth-new-object' * 2
+THREAD_SCRIPTS = {
+    # (client script, lowered _IN_SQL_MAX_LENGTH or None)
+    'perpack-add-perpack-clean': ([('pack', True), ('add', N1), ('pack', True), ('clean',)], None),
+    'direct-batch-of-three': ([('topackn', (N2, N3, N4))], 2),
+    'add-pack-clean-direct': ([('add', N1), ('pack', False), ('clean',), ('topack', N2)], None),
+}
 
 SCRIPTS = {
     'add-pack-clean-direct': [('add', N1), ('pack', False), ('clean',), ('topack', N2)],
@@ -57,6 +66,8 @@ def client_op(h, op):
         h.clean_storage()
     elif op[0] == 'topack':
         h.add_objects_to_pack([op[1]])
+    elif op[0] == 'topackn':
+        h.add_objects_to_pack(list(op[1]))
 
 
 def do_backup(src_root, dest, at_gap, same_second=None):
@@ -214,6 +225,8 @@ class BackupHarness(Harness):
         self.name = f'backup|client({script_name})'
 
     def setup(self):
+        from disk_objectstore import Container as _C
+        _C._IN_SQL_MAX_LENGTH = THREAD_SCRIPTS[self.script_name][1] or 950
         ctx = Ctx()
         ctx.dir = fresh_dir('c15t')
         ctx.root = os.path.join(ctx.dir, 'c')
@@ -239,7 +252,7 @@ class BackupHarness(Harness):
         def client():
             h = Container(ctx.root)
             try:
-                for op in SCRIPTS[self.script_name]:
+                for op in THREAD_SCRIPTS[self.script_name][0]:
                     client_op(h, op)
             finally:
                 h.close()
@@ -290,18 +303,21 @@ def run(tier, report):
     cov['backups_completed'] = completed
     cov['backups_failed_with_BackupError'] = failed
     cov['exhaustive'] = True
-    if not q and not report.violations:
+    if not report.violations:
+        # backup and client as real threads: the client script is pre-emptible at each of its visible I/O calls, the backup at its gaps
         iolayer.install()
         from ..sched import register
         from .. import common
-        hs = [BackupHarness(n) for n in SCRIPTS]
+        names = ('perpack-add-perpack-clean', 'direct-batch-of-three') if q else tuple(THREAD_SCRIPTS)
+        bound = 1 if q else 2
+        hs = [BackupHarness(n) for n in names]
         for h in hs:
             register(h)
         common.shutdown_pool()
         per = {}
         for h in hs:
-            r = explore(h, 2, max_exec=60000)
-            per[h.name] = {'bound': 2, 'executions': r['executions'], 'outcomes': dict(r['outcomes']), 'capped': r['capped']}
+            r = explore(h, bound, max_exec=60000)
+            per[h.name] = {'bound': bound, 'executions': r['executions'], 'outcomes': dict(r['outcomes']), 'capped': r['capped']}
             cov['traces_validated_against_impl'] += r['executions']
             cov['states'] += r['executions']
             seen = set()
